@@ -360,6 +360,7 @@ func cmdCheck(args []string) int {
 	var broken []string
 	var samples []interface{}
 	var totalPaths, totalSteps int64
+	validated := 0
 	for _, h := range spec.Harnesses {
 		if *only != "" && h.Func != *only {
 			continue
@@ -406,7 +407,20 @@ func cmdCheck(args []string) int {
 			eng.lockset = newLockset()
 		}
 		run := &HarnessRun{eng: eng, prop: id, name: h.Func, pkg: h.Pkg, entry: entry, params: params, native: h.Native}
+		if h.Native && !*noReplay {
+			run.validateWant, run.validateEvery = 6, 40
+			if *tier == "thorough" {
+				run.validateWant, run.validateEvery = 40, 25
+			}
+		}
 		run.execute(*workers)
+		if len(run.natSamples) > 0 && run.fatal == "" {
+			ok, problems := validateNative(h.Pkg, run.natSamples)
+			validated += ok
+			for _, pr := range problems {
+				broken = append(broken, "translator validation: "+pr)
+			}
+		}
 		rep := harnessReport{
 			Name: h.Func, Pkg: h.Pkg, Params: params, Unwind: eng.unwind, Paths: run.paths, Outcomes: run.aborts,
 			Asserts: run.asserts, Covers: run.covers, Known: run.known, Undecided: run.undecided,
@@ -517,7 +531,8 @@ func cmdCheck(args []string) int {
 		"coverage": map[string]interface{}{
 			"states":                        max64(totalPaths, 0),
 			"transitions":                   totalSteps,
-			"traces_validated_against_impl": replays,
+			"traces_validated_against_impl": replays + validated,
+			"native_differential_replays":   validated,
 			"samples":                       samples,
 			"exhaustive":                    false,
 			"explanation":                   "bounded symbolic execution of the real SSA of /repo's working tree; states = symbolic paths explored to their end, transitions = SSA instructions executed; every branch on a symbolic condition was decided by the solver; bounds: " + spec.Bounds,
